@@ -587,6 +587,25 @@ pub fn parse_j(text: &str) -> J {
     conv(&serde_json::from_str(text).expect("parse_j: fixed text"))
 }
 
+/// `depth` levels of one container kind (0 array, 1 object, 2 tuple) around `leaf`, every level optionally
+/// wrapped in a OneOf beside a String (wrap 1) or a Null (wrap 2) variant
+pub fn chain_wrapped(ctor: usize, opt: bool, depth: usize, leaf: JsonShape, wrap: usize) -> JsonShape {
+    let mut s = leaf;
+    for _ in 0..depth {
+        let inner = match ctor {
+            0 => arr(s, opt),
+            1 => obj(vec![("a", s)], opt),
+            _ => tup(vec![JsonShape::Number { optional: false }, s], opt),
+        };
+        s = match wrap {
+            0 => inner,
+            1 => one_of(vec![inner, JsonShape::String { optional: false }], false),
+            _ => one_of(vec![inner, JsonShape::Null], false),
+        };
+    }
+    s
+}
+
 /// `depth` nested containers of one kind (0 array, 1 object, 2 tuple, 3 one-of) with one optional flag
 /// around a number: the families on which a per-level slip (a dropped flag, a doubled recursive call,
 /// a depth cut-off) shows
